@@ -39,11 +39,14 @@ type SpecEnv struct {
 	iterKey string
 }
 
-type specErr struct{ msg string }
+type specErr struct {
+	msg   string
+	ident string // set for "unknown identifier" failures
+}
 
 func (e specErr) Error() string { return e.msg }
 
-func specFail(f string, a ...interface{}) { panic(specErr{fmt.Sprintf(f, a...)}) }
+func specFail(f string, a ...interface{}) { panic(specErr{msg: fmt.Sprintf(f, a...)}) }
 
 func (env *SpecEnv) with(name string, sv SV) *SpecEnv {
 	n := *env
@@ -65,7 +68,7 @@ func (r *Run) evalBool(env *SpecEnv, cl *Clause) (t Term) {
 	defer func() {
 		if x := recover(); x != nil {
 			if se, ok := x.(specErr); ok {
-				panic(execErr{fmt.Sprintf("%s:%d: in clause %q: %s", cl.File, cl.Line, cl.Src, se.msg)})
+				panic(execErr{msg: fmt.Sprintf("%s:%d: in clause %q: %s", cl.File, cl.Line, cl.Src, se.msg), ident: se.ident})
 			}
 			panic(x)
 		}
@@ -292,7 +295,7 @@ func (r *Run) evalIdent(env *SpecEnv, name string) SV {
 	if T, ok := basicTypes[name]; ok {
 		return SV{tyName: T}
 	}
-	specFail("unknown identifier %s", name)
+	panic(specErr{msg: "unknown identifier " + name, ident: name})
 	return SV{}
 }
 
@@ -1148,7 +1151,7 @@ func (r *Run) havocModifies(env *SpecEnv, pre, st *State, m Expr, src string) {
 	defer func() {
 		if x := recover(); x != nil {
 			if se, ok := x.(specErr); ok {
-				panic(execErr{fmt.Sprintf("modifies %q: %s", src, se.msg)})
+				panic(execErr{msg: fmt.Sprintf("modifies %q: %s", src, se.msg)})
 			}
 			panic(x)
 		}
